@@ -156,6 +156,11 @@ def contexts(w):
     if w == 32:
         out.append(('mem', lambda d: ('mem', d, 8)))
         out.append(('mem-in-op', lambda d: ('op', '+', (('mem', d, 32), a))))
+        # a slice of a memory read, not starting at bit 0 (the low slices are rewritten to narrower reads): the address is still reached
+        out.append(('slice-of-mem', lambda d: ('slice', ('mem', d, 32), 8, 16)))
+        out.append(('topbit-of-mem', lambda d: ('slice', ('mem', d, 32), 31, 32)))
+        out.append(('slice-of-cond-of-mem', lambda d: ('slice', ('cond', c1, ('mem', d, 32), ('id', 'q32', 32)), 8, 16)))
+        out.append(('compose-of-mem', lambda d: ('compose', ((('mem', d, 16), 0, 16), (('id', 'q16', 16), 16, 32)))))
     if w in (8, 16, 32):
         out.append(('compose', lambda d: ('compose', ((d, 0, w), (('int', w, 0), w, 2 * w)))))
     # a computed segment selector (any expression may stand there)
